@@ -54,7 +54,38 @@ HYGIENE = [
 ]
 
 
+# uses of one derived form that PRINT alike but are different forms: a string / a character against the identifier of the same
+# spelling in the same position (a form is its data, not its printed text) - each use means what ITS data say, in either order
+TWIN_PROGRAMS = [
+    (["(define done #f)", "(or done 7)", '(or "done" 7)', "(or done 7)"], ["N", "V i:7", 'V s:"done"', "V i:7"]),
+    (["(define done #f)", '(or "done" 7)', "(or done 7)"], ["N", 'V s:"done"', "V i:7"]),
+    (["(define (vs? c) (case c ((a e) 1) (else 0)))", "(define (vc? c) (case c ((#\\a #\\e) 1) (else 0)))",
+      "(list (vs? 'e) (vc? #\\e) (vs? #\\e) (vc? 'e))"], ["N", "N", "V (i:1 i:1 i:0 i:0)"]),
+    (["(define (vc? c) (case c ((#\\a #\\e) 1) (else 0)))", "(define (vs? c) (case c ((a e) 1) (else 0)))",
+      "(list (vs? 'e) (vc? #\\e) (vs? #\\e) (vc? 'e))"], ["N", "N", "V (i:1 i:1 i:0 i:0)"]),
+    (["(define a 5)", '(and 1 "a")', "(and 1 a)", '(when #t "a")', "(when #t a)"], ["N", 'V s:"a"', "V i:5", 'V s:"a"', "V i:5"]),
+    (["(define y 3)", '(let ((t "y")) t)', "(let ((t y)) t)", '(let* ((t y) (u "t")) u)', "(let* ((t y) (u t)) u)"],
+     ["N", 'V s:"y"', "V i:3", 'V s:"t"', "V i:3"]),
+    (["(define s 4)", '(cond ("s" => (lambda (v) v)) (else 0))', "(cond (s => (lambda (v) v)) (else 0))", '(begin "s")', "(begin s)"],
+     ["N", 'V s:"s"', "V i:4", 'V s:"s"', "V i:4"]),
+    (["(define one 1)", '(case 1 ((1) "one") (else 0))', "(case 1 ((1) one) (else 0))", '(unless #f "one")', "(unless #f one)"],
+     ["N", 'V s:"one"', "V i:1", 'V s:"one"', "V i:1"]),
+]
+
+
 def run(rep, tier, rng):
+    for k, (forms, want) in enumerate(TWIN_PROGRAMS):
+        got = C.run_hx([("tw%d" % k, "prog", ["std"] + forms)]).get("tw%d" % k, [])
+        mod = C.run_driver([("tw%d" % k, "prog", ["std"] + forms)]).get("tw%d" % k, [])
+        rep.count()
+        rep.nontrivial(("twin", tuple(forms)))
+        if got != want:
+            j = next((j for j in range(min(len(got), len(want))) if got[j] != want[j]), None)
+            rep.violation({"what": "two uses of a derived form that print alike but differ in their data (a string or character against the identifier "
+                                   "of the same spelling) are not each evaluated as written", "program": forms,
+                           "form": forms[j] if j is not None else None, "expected": want, "implementation": got})
+        elif mod != got:
+            rep.violation({"broken": "correspondence derived forms (print twins)", "program": forms, "implementation": got, "model": mod}, no_input=True)
     n = 250 if tier == "quick" else 6000
     cases, pairs = [], []
     progs = []
